@@ -173,4 +173,12 @@ CHECKS['C08'] = dict(
          'string/list/path through 1 and 2 definitions, list/path hidden behind a sibling reference, list holding a path) x 24 contexts x 2 definition phases against the accepted-type table incl. the "purely '
          'string, transitively" contexts; 8 value-rendering cases (concatenation, splicing, list-in-string, absolute paths, -rel-cd at reference time, builtins).',
     note='Accepted-type table transcribed from the manual pages and the statement\'s transitivity clause; calibrated against the unchanged tree with 0 disagreements.')
+CHECKS['C12'] = dict(
+    level='exploration',
+    technique='bounded-exhaustive enumeration of relativity x role x suffix shape x symbol chain x cd history through the real CLI; resolved paths observed at the process seam / on disk, home tree snapshot',
+    text='Resolution: every relativity option and the default x 5 suffix shapes x cd between definition and use x phase; chains of 2 (thorough 3) path definitions mixing -rel SYM and @[SYM]@/suffix over every base; '
+         'the same cd-relative symbol (and derived symbols) used before and after several cd; suffixes with repeated slashes. Destinations: 5 roles x every option (accepted => created at the documented place, '
+         'other => SYNTAX_ERROR) x symbol chains of depth 1..3 over every base and 4 reference forms (non-writable base => VALIDATION_ERROR before execution, nothing executed, home unchanged) x 5 ways of giving an '
+         'absolute path. Reading: 8 roles x every option and default with the file present only under the documented root.',
+    note='KF-C12-ABS (absolute FILE-NAME escapes the relativity; also in the repository\'s doc/BUGS.rst) is a recorded known finding matched by predicate + defect model; reading roles may be more liberal than their help page lists.')
 NOT_APPLICABLE = {}
